@@ -86,7 +86,7 @@ func runHistory(r *ev.Run, id caseID) {
 		r.Violation("fsm-open", fmt.Sprintf("open failed: %v", err), id)
 		return
 	}
-	defer t.Close()
+	defer func() { t.Close() }()
 	m := model.NewTable()
 	g.Peek = func(k []byte) ([]byte, bool) { v, ok := m.M[string(k)]; return v, ok }
 
@@ -172,6 +172,28 @@ func runHistory(r *ev.Run, id caseID) {
 		if li, err := t.LeaderIndex(); err != nil || li != m.Leader {
 			fail("leader-index", fmt.Sprintf("after batch ending at %d", idx), fmt.Sprintf("leader index %d (err %v), model %d", li, err, m.Leader))
 			return
+		}
+		// the table is the same map whatever the storage engine does underneath: now and then
+		// the memtable is flushed (Sync), or the table closed and reopened, before the reads
+		switch x := g.R.Intn(12); {
+		case x < 3:
+			if err := t.SM.Sync(); err != nil {
+				fail("sync-error", fmt.Sprintf("after batch ending at %d", idx), err.Error())
+				return
+			}
+			r.Count("flushes_between_apply_calls", 1)
+		case x == 3 && !id.Big:
+			if err := t.Close(); err != nil {
+				fail("close-error", fmt.Sprintf("after batch ending at %d", idx), err.Error())
+				return
+			}
+			nt, oidx, err := t.Reopen()
+			if err != nil || oidx != idx {
+				fail("reopen", fmt.Sprintf("after batch ending at %d", idx), fmt.Sprintf("reopen reports index %d (err %v), applied %d", oidx, err, idx))
+				return
+			}
+			t = nt
+			r.Count("reopens_between_apply_calls", 1)
 		}
 		// sampled reads
 		for k := 0; k < 3; k++ {
